@@ -1,54 +1,59 @@
 (* Property C11 — metadata blocks survive a write/read round trip and report their sizes.
-   Statements only; proofs are in Blocks_proofs.v / BlockList_proofs.v.
-   `covered b` lists the block types whose codec theorems are proved (see NOTES.md);
-   `ty_block` is the invariant the Rust types give a value; `canon_block` excludes the one
-   known aliasing class (STREAMINFO with md5 = Some of sixteen zero bytes, finding
-   streaminfo-md5-some-all-zero), for which the full statement is refuted below. *)
-From FlacMeta Require Import Bytes Blocks BlockList Blocks_proofs BlockList_proofs.
+   Statements only; proofs are in Blocks_proofs.v, Blocks_proofs2.v, Blocks_level.v and
+   BlockList_proofs.v.  All seven block types are covered.
+   `ty_block u b` is the invariant the Rust types give a value (field widths, NonZero,
+   BlockSize, Contiguous, IndexVec, Digit, ISRCString, String = valid UTF-8 under u);
+   `canon_block` excludes the one known aliasing class (STREAMINFO with md5 = Some of
+   sixteen zero bytes, finding streaminfo-md5-some-all-zero), for which the full statement
+   is refuted below.  UTF-8 validity is any predicate that accepts ASCII (as std's does;
+   Utf8_proofs.utf8_valid_std_ascii shows the instance used in the runs qualifies). *)
+From FlacMeta Require Import Bytes Blocks BlockList Blocks_proofs Blocks_proofs2 Blocks_level BlockList_proofs Utf8 Utf8_proofs.
 Open Scope N_scope.
 
+Definition utf8_ok (u : list N -> bool) : Prop := forall s, Forall (fun b => b < 128) s -> u s = true.
+
 (* every block value the writer accepts reads back equal (with the header, inside a stream) *)
-Theorem C11_block_write_read : forall (utf8_valid : list N -> bool) last b bs rest,
-  covered b -> ty_block b -> canon_block b ->
-  write_block last b = Ok bs -> read_block utf8_valid (bs ++ rest) = Ok (last, b, rest).
+Theorem C11_block_write_read : forall (u : list N -> bool), utf8_ok u -> forall last b bs rest,
+  ty_block u b -> canon_block b ->
+  write_block last b = Ok bs -> read_block u (bs ++ rest) = Ok (last, b, rest).
 Proof. exact block_write_read. Qed.
 
 (* the size a block reports (MetadataBlock::bytes, computed from field widths) is the header
    size field and the number of body bytes written *)
-Theorem C11_block_size : forall last b bs, covered b -> ty_block b -> write_block last b = Ok bs ->
+Theorem C11_block_size : forall (u : list N -> bool) last b bs, ty_block u b -> write_block last b = Ok bs ->
   exists body, bs = write_header (mkHeader last (block_type b) (lenN body)) ++ body /\
                write_body b = Ok body /\ block_bytes b = Ok (Some (lenN body)).
 Proof. exact block_bytes_spec. Qed.
 
-(* any accepted encoding of a block can be written again and re-read to an equal block *)
-Theorem C11_block_read_write_read : forall (utf8_valid : list N -> bool) s last b rest,
-  Forall byte s -> read_block utf8_valid s = Ok (last, b, rest) -> covered b ->
-  ty_block b /\ canon_block b /\ Forall byte rest /\ lenN rest + 4 <= lenN s /\
+(* any accepted encoding of a block can be written again (to as many bytes as were read) *)
+Theorem C11_block_read_write_read : forall (u : list N -> bool) s last b rest,
+  Forall byte s -> read_block u s = Ok (last, b, rest) ->
+  ty_block u b /\ canon_block b /\ Forall byte rest /\ lenN rest + 4 <= lenN s /\
   exists bs', write_block last b = Ok bs' /\ lenN bs' + lenN rest = lenN s.
 Proof. exact read_block_inv. Qed.
 
 (* whenever write_blocks succeeds, read_blocks accepts its output (also when audio follows) *)
-Theorem C11_write_blocks_read_blocks : forall (utf8_valid : list N -> bool) l bs tail,
-  Forall covered l -> Forall ty_block l -> Forall canon_block l ->
-  write_blocks l = Ok bs -> read_blocks utf8_valid (bs ++ tail) = Ok l.
+Theorem C11_write_blocks_read_blocks : forall (u : list N -> bool), utf8_ok u -> forall l bs tail,
+  Forall (ty_block u) l -> Forall canon_block l ->
+  write_blocks l = Ok bs -> read_blocks u (bs ++ tail) = Ok l.
 Proof. exact write_blocks_read_blocks. Qed.
 
 (* any section the reader accepts can be written again and re-read to an equal block list *)
-Theorem C11_read_blocks_write_blocks : forall (utf8_valid : list N -> bool) bs l,
-  Forall byte bs -> read_blocks utf8_valid bs = Ok l -> Forall covered l ->
-  Forall ty_block l /\ Forall canon_block l /\
-  exists bs', write_blocks l = Ok bs' /\ read_blocks utf8_valid bs' = Ok l.
+Theorem C11_read_blocks_write_blocks : forall (u : list N -> bool), utf8_ok u -> forall bs l,
+  Forall byte bs -> read_blocks u bs = Ok l ->
+  Forall (ty_block u) l /\ Forall canon_block l /\
+  exists bs', write_blocks l = Ok bs' /\ read_blocks u bs' = Ok l.
 Proof. exact read_blocks_write_blocks. Qed.
 
 (* lists that break the single-instance / STREAMINFO-first rules are not written ... *)
 Theorem C11_rules_refused : forall l bs, write_blocks l = Ok bs -> rules_ok l.
 Proof. exact write_blocks_rules. Qed.
 (* ... nor lists with a block body over 2^24 - 1 bytes ... *)
-Theorem C11_sizes_refused : forall l bs, Forall covered l -> Forall ty_block l -> write_blocks l = Ok bs ->
+Theorem C11_sizes_refused : forall (u : list N -> bool) l bs, Forall (ty_block u) l -> write_blocks l = Ok bs ->
   Forall (fun b => exists body, write_body b = Ok body /\ lenN body <= BLOCKSIZE_MAX) l.
 Proof. exact write_blocks_sizes. Qed.
 (* ... and the refusal is an error, never a panic *)
-Theorem C11_write_never_panics : forall l, Forall covered l -> Forall ty_block l ->
+Theorem C11_write_never_panics : forall (u : list N -> bool) l, Forall (ty_block u) l ->
   is_panic (write_blocks l) = false.
 Proof. exact write_blocks_no_panic. Qed.
 
@@ -56,20 +61,31 @@ Proof. exact write_blocks_no_panic. Qed.
 Definition C11_statement : Prop := C11_statement_full.
 Theorem C11_refuted : ~ C11_statement.
 Proof. exact c11_refuted. Qed.
-Theorem C11_outside_known : forall (utf8_valid : list N -> bool) b bs r,
-  covered b -> ty_block b -> ~ known_class b -> write_body b = Ok bs ->
-  read_body utf8_valid (block_type b) (lenN bs) (bs ++ r) = Ok (b, r).
+Theorem C11_outside_known : forall (u : list N -> bool) b bs r, utf8_ok u ->
+  ty_block u b -> ~ known_class b -> write_body b = Ok bs ->
+  read_body u (block_type b) (lenN bs) (bs ++ r) = Ok (b, r).
 Proof. exact c11_outside_known. Qed.
 
-(* non-vacuity: a typed, canonical three-block list that the writer accepts *)
+(* the UTF-8 hypothesis is satisfiable: by the validator the model runs with *)
+Theorem C11_utf8_std_ok : utf8_ok utf8_valid_std.
+Proof. exact utf8_valid_std_ascii. Qed.
+
+(* non-vacuity: a typed, canonical list with all seven block types that the writer accepts *)
+Definition C11_example : list block :=
+  [BStreaminfo (mkSI 4096 4096 12 3000 44100 2 16 80 (Some [245; 63; 134; 135; 109; 205; 119; 131; 34; 92; 147; 186; 138; 147; 140; 125]));
+   BSeekTable [SPDefined 0 0 4096; SPDefined 4096 1200 4096; SPPlaceholder];
+   BApplication (mkApp 1919510118 [1; 2; 3]);
+   BVorbis (mkVC [102; 108; 97; 99] [[84; 73; 84; 76; 69; 61; 195; 169]; []]);
+   BCuesheet (CueCDDA (Some [48;49;50;51;52;53;54;55;56;57;48;49;50]) 88200
+                [mkTrack 0 1 (IsrcStr [65;66;49;50;51;49;50;49;50;51;52;53]) false true
+                         (mkIV (Some (mkIx 0 0)) (mkIx 1176 1) [mkIx 5880 2])]
+                (mkLO 588000 IsrcNone false false));
+   BPicture (mkPic 3 [105; 109; 97; 103; 101; 47; 112; 110; 103] [] 16 9 24 0 [137; 80; 78; 71]);
+   BPadding 5].
 Example C11_nonvacuous :
-  let l := [BStreaminfo (mkSI 4096 4096 12 3000 44100 2 16 80 (Some [245; 63; 134; 135; 109; 205; 119; 131; 34; 92; 147; 186; 138; 147; 140; 125]));
-            BSeekTable [SPDefined 0 0 4096; SPDefined 4096 1200 4096; SPPlaceholder];
-            BApplication (mkApp 1919510118 [1; 2; 3]);
-            BPadding 5] in
-  is_ok (write_blocks l) = true /\
-  (forall bs, write_blocks l = Ok bs -> read_blocks (fun _ => true) bs = Ok l).
+  is_ok (write_blocks C11_example) = true /\
+  (forall bs, write_blocks C11_example = Ok bs -> read_blocks utf8_valid_std bs = Ok C11_example).
 Proof.
-  cbv zeta. split; [vm_compute; reflexivity|]. intros bs W. vm_compute in W. apply Ok_inj in W. subst bs.
+  split; [vm_compute; reflexivity|]. intros bs W. vm_compute in W. apply Ok_inj in W. subst bs.
   vm_compute. reflexivity.
 Qed.
